@@ -236,6 +236,12 @@ def tie_a(prop, tier, seed):
                     continue
                 d.update(cfg=c, case=cid, src=item_txt(it))
                 dis.append(d)
+            for d in tiea.compare_stage_a(m, i):
+                stats['stage_a_disagreements'] = stats.get('stage_a_disagreements', 0) + 1
+                d.update(cfg=c, case=cid, src=item_txt(it))
+                dis.append(d)
+            if i.get('stageA') is not None:
+                stats['stage_a_compared'] = stats.get('stage_a_compared', 0) + 1
     stats['error_classes'] = classes
     return cases, dis, stats
 
